@@ -46,6 +46,9 @@ func (k *Ed25519PrivateKey) Equals(o Key) bool {
 	if !ok {
 		return basicEquals(k, o)
 	}
+	if edk == nil {
+		return false
+	}
 	return subtle.ConstantTimeCompare(k.k, edk.k) == 1
 }
 
@@ -79,6 +82,9 @@ func (k *Ed25519PublicKey) Equals(o Key) bool {
 	edk, ok := o.(*Ed25519PublicKey)
 	if !ok {
 		return basicEquals(k, o)
+	}
+	if edk == nil {
+		return false
 	}
 	return bytes.Equal(k.k, edk.k)
 }
